@@ -78,6 +78,9 @@ def c08Step (s : St) (j : Json) : St × Json :=
   if getStr j "op" == "init" then
     let s' := init (getNat j "cap") (getNat j "staleCreate") (getNat j "staleRead")
     (s', Json.mkObj [("out", Json.str "init"), ("st", stJson s')])
+  else if getStr j "op" == "ioMid" then
+    let (s', o) := ioMidPurge s (getNat j "id") (getStr j "k")
+    (s', Json.mkObj [("out", outJson (.io o)), ("st", stJson s')])
   else if getStr j "op" == "atexit" then
     let s' := atexit s
     (s', Json.mkObj [("out", Json.str "atexit"), ("st", stJson s')])
